@@ -28,6 +28,7 @@ mod c12;
 mod c13;
 mod c14;
 mod c15;
+mod c16;
 mod faults;
 
 use engine::{Property, RunCfg, Tier};
@@ -64,6 +65,7 @@ fn build(id: &str, ctx: &Ctx) -> Option<Property> {
         "C13" => c13::build(ctx),
         "C14" => c14::build(ctx),
         "C15" => c15::build(ctx),
+        "C16" => c16::build(ctx),
         _ => return None,
     })
 }
